@@ -44,3 +44,47 @@ def authorized_prefix(model, payload):
                 "inputs": {"accepted": sorted(accepted), "parts": parts},
             }
     return {"reproduced": False, "detail": "no disagreement for |W|=%d, len(parts)=%d: %r" % (card, n, tried)}
+
+
+def authorized_types(model, payload):
+    """_is_authorized_type against the documented table, for every combination of the two options"""
+    import collections
+    import datetime
+    import decimal
+    import pathlib
+    import types
+    from collections import OrderedDict
+    import dds
+    from dds._retrieve_objects import _is_authorized_type
+    from dds._eval_ctx import EvalMainContext
+    from dds.structures import DDSException
+    import dds.introspect as intro
+
+    always = [None, int, float, str, bytes, bool, type(None), pathlib.PurePosixPath, types.FunctionType, types.ModuleType]
+    other = [set, frozenset, pathlib.PosixPath, pathlib.PurePath, complex, bytearray, range, datetime.date, decimal.Decimal, collections.defaultdict, collections.deque, object, type]
+    ctx = EvalMainContext(None, whitelisted_packages=set(intro._accepted_packages), start_globals={}, resolved_references=OrderedDict())
+    bad = []
+    try:
+        for al in (True, False):
+            for ad in (True, False):
+                dds.set_option("accept_list", al) if hasattr(dds, "set_option") else None
+                dds.set_option("accept_dict", ad) if hasattr(dds, "set_option") else None
+                table = [(t, True) for t in always] + [(list, al), (tuple, al), (dict, ad), (OrderedDict, ad)] + [(t, False) for t in other]
+                for t, want in table:
+                    try:
+                        got = _is_authorized_type(t, ctx)
+                    except DDSException as e:
+                        got = "DDSException"
+                    except BaseException as e:
+                        got = type(e).__name__
+                    if got != want:
+                        bad.append("accept_list=%s accept_dict=%s: %s is %s, documented: %s" % (al, ad, getattr(t, "__name__", t), "tracked" if got is True else ("not tracked" if got is False else got), "tracked" if want else "not tracked"))
+    finally:
+        try:
+            dds.set_option("accept_list", True)
+            dds.set_option("accept_dict", True)
+        except Exception:
+            pass
+    if bad:
+        return {"reproduced": True, "detail": "; ".join(bad[:4]), "inputs": {"mismatches": bad[:10]}}
+    return {"reproduced": False, "detail": "27 classes x 4 option settings agree with the documented table"}
